@@ -120,7 +120,7 @@ Section Main.
       (if mc && (ty =? NR_CON) then [[]] else []) ++
       (if (ty =? NR_NON) && sp_bad_options cfg req then sp_reject mc req else []) ++
       flat_map (fun e => if sp_applies cfg mc req e then sp_emit cfg mc req e else []) dp_all_errs ++
-      (if sp_blocked cfg mc req then [] else [sp_handler_out cfg h mc req]).
+      (if sp_blocked cfg mc req then [] else sp_handler_outs cfg h mc req).
     Proof.
       unfold outs, dp_allowed_outs. fold ty code. unfold is_conn in Hconn.
       rewrite Hconn, Hcls, not_response, Hreq. reflexivity.
